@@ -46,6 +46,13 @@ fn registry() -> Vec<CheckDef>
 			case_timeout_ms: 20_000,
 			level_text: "exhaustive enumeration of bounded derivations of the model grammar (every production, operator, precedence pattern, statement nesting, type form, declaration kind) in canonical and deviated layouts; each module parsed by both real parsers and compared with the model's own syntax tree",
 		},
+		CheckDef {
+			id: "C17",
+			drive: checks::c17::drive,
+			work: checks::c17::work,
+			case_timeout_ms: 20_000,
+			level_text: "exhaustive enumeration of all sequences of declarations (9 kinds x 3 visibilities) up to a length bound, i.e. every pattern of private zones; the real build_header output is compared with the parse of the model's projection and with the projection's model tree",
+		},
 	]
 }
 
